@@ -554,3 +554,19 @@ func buildChainFile(chain []string, payload []byte) []byte {
 	s.content = "q 32 0 0 32 10 10 cm /Im0 Do Q\n"
 	return s.finish()
 }
+
+// buildLZWStateFile writes a document whose page uses, as an image XObject,
+// one LZWDecode stream with the given body (a table-state body of C08's
+// family: clear-table code, filler codes up to a boundary of the code table,
+// a short tail over {top code, top-1, clear, EOD, literal}).
+func buildLZWStateFile(earlyChange int, body []byte) []byte {
+	s := newSkeleton()
+	parms := ""
+	if earlyChange == 0 {
+		parms = " /DecodeParms << /EarlyChange 0 >>"
+	}
+	im := s.add(cstream("/Type /XObject /Subtype /Image /Width 32 /Height 32 /ColorSpace /DeviceRGB /BitsPerComponent 8 /Filter /LZWDecode"+parms, body))
+	s.resources = "/XObject << /Im0 " + ref(im) + " >>"
+	s.content = "q 32 0 0 32 10 10 cm /Im0 Do Q\n"
+	return s.finish()
+}
